@@ -13,6 +13,7 @@ import (
 	"github.com/datastax/go-cassandra-native-protocol/primitive"
 
 	"verif/gen"
+	"verif/ref/reflz4"
 	"verif/vlib"
 )
 
@@ -22,9 +23,9 @@ var Ignore = map[string]bool{"Header.BodyLength": true, "ColumnMetadata.Index": 
 // Opts returns the enumeration bounds of the tier.
 func Opts(c *vlib.Check) gen.Opts {
 	if c.Thorough() {
-		return gen.Opts{D: 2, Thorough: true, TypeDepth: 2}
+		return gen.Opts{D: 3, Thorough: true, TypeDepth: 2}
 	}
-	return gen.Opts{D: 1, Thorough: false, TypeDepth: 1}
+	return gen.Opts{D: 2, Thorough: false, TypeDepth: 2}
 }
 
 // ForEach generates all frames of all versions and calls f concurrently. It returns the number
@@ -45,11 +46,20 @@ func ForEach(c *vlib.Check, o gen.Opts, f func(cs gen.Case)) int64 {
 	}
 	go func() { pw.Wait(); close(ch) }()
 	var ww sync.WaitGroup
+	var stop int32
+	var done int64
 	for i := 0; i < runtime.NumCPU(); i++ {
 		ww.Add(1)
 		go func() {
 			defer ww.Done()
 			for cs := range ch {
+				if atomic.LoadInt32(&stop) != 0 {
+					continue // deadline: drain what the generators still produce
+				}
+				if atomic.AddInt64(&done, 1)%4096 == 0 && c.Expired("the frame enumeration (frames are generated simplest first: bases, header variants, option vectors, 1, 2, then 3 deviations)") {
+					atomic.StoreInt32(&stop, 1)
+					continue
+				}
 				f(cs)
 			}
 		}()
@@ -170,4 +180,40 @@ func Kind(name string) string {
 		p = p[:2]
 	}
 	return strings.Join(p, ".")
+}
+
+// LZ4Cause attributes a failure of an LZ4 encoding to the compressor of the pinned dependency
+// (pierrec/lz4 v4.0.3) when, and only when, the block it produced is at fault by itself: read with
+// the independent format reader, the block either contains a match with offset 0 (forbidden; what
+// a match exactly 65536 bytes back becomes) or decodes to something other than the input, and at
+// the first wrong byte the input repeats a 4-byte sequence from 65536..65543 bytes earlier - just
+// outside LZ4's match window. Anything else (a correct block mishandled by the library, a block
+// damaged after compression) gets "".
+func LZ4Cause(input, block []byte) string {
+	const cause = "lz4-compressor-match-beyond-window"
+	_, zero, ok := reflz4.Scan(block)
+	if ok && zero {
+		return cause
+	}
+	out, ok := reflz4.Decode(block)
+	if !ok {
+		return ""
+	}
+	p := 0
+	for p < len(out) && p < len(input) && out[p] == input[p] {
+		p++
+	}
+	if p == len(input) && len(out) == len(input) {
+		return "" // the block is correct
+	}
+	// the wrong copy may have started a few bytes before the first visible difference
+	for back := 0; back <= 8 && p-back >= 0; back++ {
+		q := p - back
+		for d := 65536; d <= 65543; d++ {
+			if q-d >= 0 && q+4 <= len(input) && string(input[q:q+4]) == string(input[q-d:q-d+4]) {
+				return cause
+			}
+		}
+	}
+	return ""
 }
